@@ -205,6 +205,14 @@ def run_scenario(task):
         for rel, text in files.items():
             p = Path(root, rel)
             p.parent.mkdir(parents=True, exist_ok=True)
+            if rel == src_rel and idx % 3 == 1:
+                # every third scenario names its source through a symbolic link: the text lives elsewhere under another name; paths
+                # are relative to the source file AS NAMED (defaults take the name given, includes are found beside it)
+                real = Path(root, "_elsewhere", f"engine{idx}.mac")
+                real.parent.mkdir(parents=True, exist_ok=True)
+                real.write_text(text, encoding="utf-8")
+                p.symlink_to(os.path.relpath(real, p.parent))
+                continue
             p.write_text(text, encoding="utf-8")
         cwd = Path(root, *sc["cwd"])
         cwd.mkdir(parents=True, exist_ok=True)
